@@ -22,6 +22,51 @@ def ringScrolled (c : Cfg) (pts : List Coord) : List Coord := closeRing c true (
 def ringUndecided (c : Cfg) (pts : List Coord) : Bool :=
   !pts.isEmpty && (c.isCCW (ringScrolled c pts).reverse == c.isCCW (ringScrolled c pts))
 
+
+/-! ### the hypotheses of the C20 normalisation theorems, as Bool functions -/
+
+/-- polygon ring (role `cw`): unique minimum vertex, at least two distinct positions, and the orientation test does
+not ask for a reversal in both directions -/
+def ringIdemOK (c : Cfg) (cw : Bool) (pts : List Coord) : Bool :=
+  pts.isEmpty || (minCount c pts.dropLast == 1 && decide (2 ≤ pts.dropLast.length) &&
+    !(c.isCCW (ringScrolled c pts) == cw && c.isCCW (ringScrolled c pts).reverse == cw))
+
+/-- polygon ring: unique minimum vertex and `isCCW` tells the ring from its reverse -/
+def ringCanonOK (c : Cfg) (pts : List Coord) : Bool :=
+  pts.isEmpty || (minCount c pts.dropLast == 1 && decide (2 ≤ pts.dropLast.length) &&
+    (c.isCCW (ringScrolled c pts).reverse == !c.isCCW (ringScrolled c pts)))
+
+/-- LineString / LinearRing: an open line always qualifies; a closed one must not be counter-clockwise in both directions -/
+def lineIdemOK (c : Cfg) (pts : List Coord) : Bool :=
+  pts.isEmpty || !isClosedPts c pts || (decide (2 ≤ pts.length) &&
+    !(decide (4 ≤ (ringScrolled c pts).length) && c.isCCW (ringScrolled c pts) && c.isCCW (ringScrolled c pts).reverse))
+
+/-- LineString / LinearRing: a closed one needs a unique minimum vertex, at least 4 points and a decisive `isCCW` -/
+def lineCanonOK (c : Cfg) (pts : List Coord) : Bool :=
+  pts.isEmpty || !isClosedPts c pts || (minCount c pts.dropLast == 1 && decide (4 ≤ (ringScrolled c pts).length) &&
+    (c.isCCW (ringScrolled c pts).reverse == !c.isCCW (ringScrolled c pts)))
+
+mutual
+  /-- hypothesis of `normalize_idem_partial` -/
+  def idemOK (c : Cfg) : G → Bool
+    | .polygon sh hs => ringIdemOK c true sh.pts && hs.all (fun h => ringIdemOK c false h.pts)
+    | .lineString s => lineIdemOK c s.pts
+    | .linearRing s => lineIdemOK c s.pts
+    | .multiPoint gs => idemOKL c gs
+    | .multiLineString gs => idemOKL c gs
+    | .multiPolygon gs => idemOKL c gs
+    | .multiCurve gs => idemOKL c gs
+    | .multiSurface gs => idemOKL c gs
+    | .collection gs => idemOKL c gs
+    | .point _ => true
+    | .circularString _ => true
+    | .compoundCurve _ => true
+    | .curvePolygon _ => true
+  def idemOKL (c : Cfg) : List G → Bool
+    | [] => true
+    | g :: gs => idemOK c g && idemOKL c gs
+end
+
 /-- structural (bit-for-bit) equality of geometries -/
 def sameG (a b : G) : Bool := eqWith (fun s t => decide (s = t)) a b
 
